@@ -59,13 +59,19 @@ def tasks(tier):
         out.append({"family": "records-classification", "cfg": cfg, "entry": e, "bound": 0,
                     "ncalls": 2})
     for e, thr in itertools.product(WITH_RETRY[:4] + NO_RETRY, [1, 3]):
-        cfg = dict(M=2, alphabet=["ok", "x:T", "coe", "nested", "kbd", "genexit"], max_unknown=None,
+        cfg = dict(M=2, alphabet=["ok", "x:T", "coe", "nested", "kbd", "genexit", "xc:P", "xc:T"],
+                   max_unknown=None,
                    breaker={"threshold": thr, "window": 8, "recovery": 2, "trip_on": ["T", "U", "P"]})
         out.append({"family": "records-unclassified", "cfg": cfg, "entry": e, "bound": 0, "ncalls": 2})
         for site, idx in itertools.product(["classifier", "aend", "strategy"], [0, 1]):
             cfg2 = dict(cfg, alphabet=["ok", "x:T", "x:P"], faults=[(site, idx, "KeyError")],
                         attempt_hooks="call")
             out.append({"family": "records-faults", "cfg": cfg2, "entry": e, "bound": 0, "ncalls": 1})
+    # the final failure is a rejected None result
+    for e, thr in itertools.product(WITH_RETRY, [1, 3]):
+        cfg = dict(M=2, alphabet=["ok", "rn:T", "rn:P", "x:U", "r:T"], force_rc=True, max_unknown=None,
+                   breaker={"threshold": thr, "window": 8, "recovery": 2, "trip_on": ["T", "U", "P"]})
+        out.append({"family": "records-none-result", "cfg": cfg, "entry": e, "bound": 0, "ncalls": 2})
     # overlapping calls on one Policy object: while call A is inside a callback (attempt-end
     # hook, metric hook, strategy) a whole call B with a different final class runs through the
     # same policy; A must still report its own final class
